@@ -538,6 +538,18 @@ func (m *Model) bindInst(mi *MInst, in *Inst, ctx string, depth int) {
 		}
 	}
 	vrt.Assert(okShape, "C04.argument_shape", ctx, "constructor of slot", in.Slot, "received", in.ArgCount, "model says", mi.ArgCount)
+	if !okShape && len(in.ArgCount) == len(mi.ArgCount) {
+		// a registered singleton / scoped service that was not injected at all
+		k := 0
+		for j := range mi.ArgCount {
+			if mi.ArgCount[j] == 1 && in.ArgCount[j] == -1 && k < len(mi.Args) && mi.Args[k] != nil {
+				vrt.Assert(false, m.prefix(mi.Args[k].Reg, "not_injected"), ctx, "registration", mi.Args[k].Reg, "is registered but its consumer (slot", in.Slot, ") received nil")
+			}
+			if mi.ArgCount[j] > 0 {
+				k += mi.ArgCount[j]
+			}
+		}
+	}
 	if !okShape || len(in.Args) != len(mi.Args) {
 		return
 	}
